@@ -315,6 +315,15 @@ func runRender(r *runner, work *choice.Source) (fs []Finding) {
 	r.st.Workers = workers
 	r.st.Desc = fmt.Sprintf("render kind=%d %dx%d samples=%d workers=%d sharedRenderer=%v focus=%v", kind, w, h, samples, workers, sharedRenderer, focus)
 	cam := render3d.NewCameraAt(model3d.XYZ(0.3, -4, 0.5), model3d.XYZ(0, 0, 0), 0.9)
+	// a camera given as a plain struct with its zero-valued fields left alone (field
+	// of view 0: the image is degenerate, but sharing the renderer must still not
+	// race); values are not judged then
+	zeroFOV := work.Chance(1, 8)
+	if zeroFOV {
+		c := *cam
+		c.FieldOfView = 0
+		cam = &c
+	}
 	lights := []*render3d.PointLight{{Origin: model3d.XYZ(2, -3, 4), Color: render3d.NewColor(1)}}
 	obj := scene()
 	knobs := map[string]int{"render.workers": workers}
@@ -375,7 +384,7 @@ func runRender(r *runner, work *choice.Source) (fs []Finding) {
 		}
 		for _, im := range imgs[:1] {
 			for i, c := range im.Data {
-				if math.IsNaN(c.X + c.Y + c.Z) {
+				if !zeroFOV && math.IsNaN(c.X+c.Y+c.Z) {
 					fs = append(fs, Finding{"render|nan", fmt.Sprintf("%s: pixel %d is NaN", r.st.Desc, i)})
 					return
 				}
